@@ -69,6 +69,13 @@ def shard(s):
             for pat in ("+" * N, ("+-" * N)[:N], "+" + "0" * (N - 1), ("++0--0" * N)[:N], "-" * (N // 2) + "0" + "+" * (N - N // 2 - 1)):
                 if len(pat) == N:
                     _consume(acc, R.spell_rotating(pat, N), "rot")
+    elif kind == "ENDS":
+        # very long patterns that share their first and last residues but differ inside (keys built from abbreviated text collide)
+        N = s[1]
+        for ends in ("+++", "+-0", "000"):
+            for unit in ("+", "-", "0", "+-", "+0-", "++--00"):
+                inner = (unit * (N // len(unit) + 1))[:N - 6]
+                _consume(acc, R.spell_rotating(ends + inner + ends[::-1], N), "rot")
     elif kind == "LONG":
         for pat in spaces.long_family(s[1]):
             _consume(acc, R.spell_rotating(pat, s[1]), "rot")
@@ -85,6 +92,7 @@ def run(tier, seed, t0):
     shards += [("R", N, 3) for N in range(RN, 4, -1)]
     LN = (64, 128, 200, 256) if tier == "quick" else (64, 127, 128, 129, 200, 256, 300, 400, 512, 700, 1000)
     shards += [("LONG", N) for N in LN]
+    shards += [("ENDS", N) for N in ((1100,) if tier == "quick" else (1001, 1100, 1500))]
     SC = 300 if tier == "quick" else 600
     shards = [("SCAN", SC, "up"), ("SCAN", SC, "down")] + shards
     acc = core.pmap(shard, shards)
